@@ -100,6 +100,20 @@ CLAIMS = {
              "for all initial values. Lemma L-XADD (Lean 4 + Mathlib, no axioms beyond propext) proves that any "
              "number of such instances under any instruction interleaving ends at x0 + sum of the amounts.",
         note=BPFVC_TRUST + "; atomicity of BPF_ATOMIC|BPF_ADD is the ISA's contract; bounded in statement shapes"),
+    "C01": dict(
+        engine="bpfvc", category="other", design_ref="DESIGN.md section 4 C01 (Stage A)",
+        technique="contract-based deductive verification of generated statements: denotational postcondition from "
+                  "the property on the assembled bytes of every enumerated `dest = expr`, all register/memory "
+                  "contents symbolic",
+        text="Stage A: about 5400 (quick) statements - every operator + - * // % & | ^ << >> unary minus abs at "
+             "depth 1 over registers (r sr w sw), local variables of all formats and small/negative/64-bit "
+             "constants, four destination classes, plus depth-2 shapes - are built with the real DSL; each is "
+             "proved for all inputs against the exact-value spec (ring operators unconditionally, the others under "
+             "the property's range precondition, signed division either rounding). Five regions violate the "
+             "property on the real bytes and are recorded findings; everything outside them is discharged. "
+             "Bounded in program shape (no Stage B).",
+        note=BPFVC_TRUST + "; products/quotients of non-constants are uninterpreted in the first proof attempt, "
+             "with the real operations as fallback; bounded in program shape"),
 }
 
 NA = {
